@@ -43,7 +43,7 @@ deriving Repr, DecidableEq
 
 inductive Err where
   | value | key | index | attr | fuel
-  | noneVal     -- not an exception: a Computable whose evaluation failed earlier is read and yields `None`
+  | user        -- the function of a Computed raised on its own (C17; any exception that is not one of the above)
 deriving Repr, DecidableEq, Inhabited
 
 structure Reg (H : Type) where
@@ -126,10 +126,18 @@ inductive Val where
   | list (l : List Int)
 deriving Repr, DecidableEq, Inhabited
 
+/-- a Python `slice(a, b, c)`; `none` = `None` (bound left out / step left out) -/
+structure Slc where
+  a : Option Int
+  b : Option Int
+  c : Option Int
+deriving Repr, DecidableEq, Inhabited
+
 inductive Idx where
   | none
   | int (i : Int)
   | slice (a b : Int)
+  | sliceX (s : Slc)
 deriving Repr, DecidableEq, Inhabited
 
 /-- the `AttributeDict` handed to a handler (owner = the one instance of the scenario) -/
@@ -170,6 +178,52 @@ def setSlice (d : List Int) (a b : Int) (vs : List Int) : List Int :=
 /-- `del data[a:b]` -/
 def delSlice (d : List Int) (a b : Int) : List Int := setSlice d a b []
 
+/-! ### extended slices: open bounds, steps other than 1, negative steps (CPython `PySlice_AdjustIndices`) -/
+
+/-- `slice.indices(len)`: (start, stop, step); `none` = step 0 (`ValueError`) -/
+def Slc.adjust (s : Slc) (len : Nat) : Option (Int × Int × Int) :=
+  let step := s.c.getD 1
+  if step = 0 then none
+  else
+    let L : Int := len
+    let adj (x : Option Int) (dflt : Int) : Int :=
+      match x with
+      | none => dflt
+      | some x =>
+        let x := if x < 0 then x + L else x
+        if x < 0 then (if step < 0 then -1 else 0)
+        else if x ≥ L then (if step < 0 then L - 1 else L)
+        else x
+    some (adj s.a (if step < 0 then L - 1 else 0), adj s.b (if step < 0 then -1 else L), step)
+
+/-- how many items the slice selects -/
+def sliceLen (start stop step : Int) : Nat :=
+  if step < 0 then (if stop < start then ((start - stop - 1) / (-step) + 1).toNat else 0)
+  else (if start < stop then ((stop - start - 1) / step + 1).toNat else 0)
+
+/-- the positions the slice selects, in the order of the slice -/
+def Slc.indices (s : Slc) (len : Nat) : Option (List Nat) :=
+  (s.adjust len).map fun (start, stop, step) =>
+    (List.range (sliceLen start stop step)).map fun (j : Nat) => (start + (j : Int) * step).toNat
+
+/-- `data[slice]` -/
+def getSliceX (d : List Int) (s : Slc) : Option (List Int) :=
+  (s.indices d.length).map fun idx => idx.map fun j => d.getD j 0
+
+/-- `data[slice] = vs`: step 1 splices (any number of items); another step needs exactly as many items as the slice
+    selects (`ValueError` otherwise) and sets them position by position -/
+def setSliceX (d : List Int) (s : Slc) (vs : List Int) : Option (List Int) :=
+  match s.adjust d.length, s.indices d.length with
+  | some (start, stop, step), some idx =>
+    if step = 1 then some (d.take start.toNat ++ vs ++ d.drop (max start stop).toNat)
+    else if vs.length ≠ idx.length then none
+    else some ((idx.zip vs).foldl (fun d (p : Nat × Int) => d.set p.1 p.2) d)
+  | _, _ => none
+
+/-- `del data[slice]`: the selected positions go -/
+def delSliceX (d : List Int) (s : Slc) : Option (List Int) :=
+  (s.indices d.length).map fun idx => (d.zipIdx.filter fun p => !idx.contains p.2).map (·.1)
+
 /-! ### SignalingList: primitives (each mutates, then notifies once) -/
 
 /-- `__setitem__` with an int index -/
@@ -191,6 +245,19 @@ def pDel (n : Nat) (d : List Int) (i : Int) : Except Err (List Int × Sig) :=
 /-- `__delitem__` with a slice -/
 def pDelSlice (n : Nat) (d : List Int) (a b : Int) : List Int × Sig :=
   (delSlice d a b, ⟨n, .remove, .list (getSlice d a b), .none, .slice a b⟩)
+
+/-- `__setitem__` with an extended slice: `old_value = self.data[index]` (step 0: `ValueError`), the assignment (wrong
+    number of items: `ValueError`), then one `replace` signal carrying the slice -/
+def pSetSliceX (n : Nat) (d : List Int) (s : Slc) (vs : List Int) : Except Err (List Int × Sig) :=
+  match getSliceX d s, setSliceX d s vs with
+  | some old, some d' => .ok (d', ⟨n, .replace, .list old, .list vs, .sliceX s⟩)
+  | _, _ => .error .value
+
+/-- `__delitem__` with an extended slice -/
+def pDelSliceX (n : Nat) (d : List Int) (s : Slc) : Except Err (List Int × Sig) :=
+  match getSliceX d s, delSliceX d s with
+  | some old, some d' => .ok (d', ⟨n, .remove, .list old, .none, .sliceX s⟩)
+  | _, _ => .error .value
 
 /-- `insert` -/
 def pInsert (n : Nat) (d : List Int) (i : Int) (v : Int) : List Int × Sig :=
@@ -273,6 +340,8 @@ inductive Op where
   | liadd (n : Nat) (vs : List Int)
   | lreverse (n : Nat)
   | lclear (n : Nat)
+  | lsetSliceX (n : Nat) (s : Slc) (vs : List Int)
+  | ldelSliceX (n : Nat) (s : Slc)
 deriving Repr, DecidableEq
 
 inductive Out where
@@ -308,12 +377,15 @@ def listOp (n : Nat) (d : List Int) : Op → Except Err (List Int × List Sig)
       .ok (d', ss ++ [⟨n, .change, .list d', .list d', .none⟩])
   | .lreverse _ => .ok (mReverse n d)
   | .lclear _ => .ok (mClear n (d.length + 1) d [])
+  | .lsetSliceX _ s vs => (pSetSliceX n d s vs).map fun (d', sg) => (d', [sg])
+  | .ldelSliceX _ s => (pDelSliceX n d s).map fun (d', sg) => (d', [sg])
   | _ => .error .attr
 
 /-- the observable an operation works on (for the list operations) -/
 def Op.listName : Op → Option Nat
   | .lset n .. | .lsetSlice n .. | .ldel n .. | .ldelSlice n .. | .linsert n .. | .lappend n ..
-  | .lpop n .. | .lremove n .. | .lextend n .. | .liadd n .. | .lreverse n | .lclear n => some n
+  | .lpop n .. | .lremove n .. | .lextend n .. | .liadd n .. | .lreverse n | .lclear n
+  | .lsetSliceX n .. | .ldelSliceX n .. => some n
   | _ => none
 
 def step (s : St) (op : Op) : St × Out :=
@@ -329,7 +401,8 @@ def step (s : St) (op : Op) : St × Out :=
   | .clear n => ({ s with reg := s.reg.clearAll n }, .ok [])
   | .drop h => ({ s with dead := h :: s.dead }, .ok [])
   | .assign n v =>
-      -- `Observable.__set__`: notify (old, new), then store
+      -- `Observable.__set__`: store, then notify (old, new) (C17/G7 repaired); the handlers of this machine read no
+      -- values, so the order cannot be observed here and the two updates are written in the old order
       let (s1, ds) := notify s ⟨n, .change, s.obsv n, .int v, .none⟩
       ({ s1 with obsv := fun m => if m = n then .int v else s1.obsv m }, .ok ds)
   | .lassign n vs =>
@@ -362,7 +435,7 @@ def run (s : St) : List Op → St × List Out
     (wrong `old`, index out of range) -/
 def applySig (d : List Int) (sig : Sig) : Option (List Int) :=
   match sig.type, sig.old, sig.new, sig.index with
-  | .change, _, .list l, .none => some l
+  | .change, .list o, .list l, .none => if o = d then some l else none
   | .append, .none, .int v, .int i => if i = d.length then some (d ++ [v]) else none
   | .insert, .none, .int v, .int i => some (insertAt d (clampIdx d.length i) v)
   | .remove, .int o, .none, .int i =>
@@ -375,10 +448,95 @@ def applySig (d : List Int) (sig : Sig) : Option (List Int) :=
       | some j => if d.getD j 0 = o then some (d.set j v) else none
       | none => none
   | .replace, .list o, .list vs, .slice a b => if getSlice d a b = o then some (setSlice d a b vs) else none
+  | .remove, .list o, .none, .sliceX s => if getSliceX d s = some o then delSliceX d s else none
+  | .replace, .list o, .list vs, .sliceX s => if getSliceX d s = some o then setSliceX d s vs else none
   | _, _, _, _ => none
 
 def replay (d : List Int) : List Sig → Option (List Int)
   | [] => some d
   | s :: ss => (applySig d s).bind fun d' => replay d' ss
+
+/-! ### handlers that subscribe / unsubscribe / clear while they are being notified (re-entrancy)
+
+`_mesa_notify` (G13 repaired) walks the subscriber list as it was when the signal was emitted; a reference whose
+handler has died is skipped, and so is one that a handler called earlier in the same round has unsubscribed meanwhile
+(`unobserve`, `clear_all_subscriptions`); a handler subscribed during the round is not called for the signal in flight.
+Afterwards the dead references are dropped from the list *as it is then*: the round never writes the list it started
+from back (that undid every `unobserve` / `clear_all_subscriptions` made by a handler). -/
+
+/-- a call a handler makes on the registry while it is being notified -/
+inductive Act where
+  | observe (n : Sel Nat) (t : Sel SigType) (h : Nat)
+  | unobserve (n : Sel Nat) (t : Sel SigType) (h : Nat)
+  | clear (n : Sel Nat)
+deriving Repr, DecidableEq
+
+/-- the call is accepted (decided by the declarations alone); admitted handler programs consist of such calls -/
+def Act.valid (r : Reg Nat) : Act → Bool
+  | .observe n t h => match r.observe n t h with | .ok _ => true | .error _ => false
+  | .unobserve n t h => match r.unobserve (fun _ => true) n t h with | .ok _ => true | .error _ => false
+  | .clear _ => true
+
+/-- one call; a rejected call changes nothing -/
+def Reg.act (r : Reg Nat) (alive : Nat → Bool) : Act → Reg Nat
+  | .observe n t h => match r.observe n t h with | .ok r' => r' | .error _ => r
+  | .unobserve n t h => match r.unobserve alive n t h with | .ok r' => r' | .error _ => r
+  | .clear n => r.clearAll n
+
+def Reg.acts (r : Reg Nat) (alive : Nat → Bool) (as : List Act) : Reg Nat := as.foldl (fun r a => r.act alive a) r
+
+/-- the loop of `_mesa_notify` over the snapshot: `called` = the handlers called so far, in order -/
+def roundLoop (progs : Nat → List Act) (alive : Nat → Bool) (n : Nat) (t : SigType) :
+    List Nat → Reg Nat → List Nat → Reg Nat × List Nat
+  | [], r, called => (r, called)
+  | h :: rest, r, called =>
+    if alive h && (r.subs n t).contains h then
+      roundLoop progs alive n t rest (r.acts alive (progs h)) (called ++ [h])
+    else roundLoop progs alive n t rest r called
+
+/-- `_mesa_notify` with handlers that run the registry calls `progs h` when they are called -/
+def Reg.deliverR (progs : Nat → List Act) (r : Reg Nat) (alive : Nat → Bool) (n : Nat) (t : SigType) :
+    Reg Nat × List Nat :=
+  let res := roundLoop progs alive n t (r.subs n t) r []
+  (res.1.setSubs n t ((res.1.subs n t).filter alive), res.2)
+
+def notifyR (progs : Nat → List Act) (s : St) (sig : Sig) : St × List (Nat × Sig) :=
+  let res := s.reg.deliverR progs s.alive sig.name sig.type
+  ({ s with reg := res.1 }, res.2.map fun h => (h, sig))
+
+def notifyAllR (progs : Nat → List Act) (s : St) (sigs : List Sig) : St × List (Nat × Sig) :=
+  sigs.foldl (fun (acc : St × List (Nat × Sig)) sig =>
+    let res := notifyR progs acc.1 sig
+    (res.1, acc.2 ++ res.2)) (s, [])
+
+/-- `step` with such handlers (`progs = fun _ => []`: the passive handlers of `step`) -/
+def stepR (progs : Nat → List Act) (s : St) (op : Op) : St × Out :=
+  match op with
+  | .assign n v =>
+      let res := notifyR progs s ⟨n, .change, s.obsv n, .int v, .none⟩
+      ({ res.1 with obsv := fun m => if m = n then .int v else res.1.obsv m }, .ok res.2)
+  | .lassign n vs =>
+      let res := notifyR progs s ⟨n, .change, .list ((s.lists n).getD []), .list vs, .none⟩
+      ({ res.1 with lists := fun m => if m = n then some vs else res.1.lists m }, .ok res.2)
+  | .observe .. | .unobserve .. | .clear _ | .drop _ => step s op
+  | op =>
+      match op.listName with
+      | none => (s, .err .attr)
+      | some n =>
+        match s.lists n with
+        | none => (s, .err .attr)
+        | some d =>
+          match listOp n d op with
+          | .error e => (s, .err e)
+          | .ok (d', sigs) =>
+            let res := notifyAllR progs s sigs
+            ({ res.1 with lists := fun m => if m = n then some d' else res.1.lists m }, .ok res.2)
+
+def runR (progs : Nat → List Act) (s : St) : List Op → St × List Out
+  | [] => (s, [])
+  | op :: ops =>
+    let res := stepR progs s op
+    let rest := runR progs res.1 ops
+    (rest.1, res.2 :: rest.2)
 
 end Mesa.Signals
